@@ -113,9 +113,8 @@ def assignOfJson (j : Json) : Except String Assign := do
     | _ => throw "bad assignment entry"
 
 def cfgOfJson (j : Json) : Cfg :=
-  match j.getObjValAs? Bool "intInfGuard" with
-  | .ok b => { intInfGuard := b }
-  | .error _ => Cfg.asWritten
+  { intInfGuard := match j.getObjValAs? Bool "intInfGuard" with | .ok b => b | .error _ => false,
+    parentByName := match j.getObjValAs? Bool "parentByName" with | .ok b => b | .error _ => true }
 
 def optInt (j : Json) (k : String) : Except String (Option Int) :=
   match j.getObjVal? k with
